@@ -1064,6 +1064,10 @@ func (env *Env) evalCall(e *ast.CallExpr) Val {
 			return boolVal(And(Not(Eq(m.T, "nilR")), Select(Select(fc.H(env.st, d), m.T), k.T)))
 		case "int", "int64", "uint", "uint32", "uint64":
 			return env.eval(e.Args[0])
+		case "chr":
+			// chr(c): the one-byte string of an ASCII code point
+			x := env.eval(e.Args[0])
+			return Val{T: App("str.from_code", x.T), Sort: "String", Typ: types.Typ[types.String]}
 		case "umod":
 			// mathematical (non-negative) remainder, as in conversion to an unsigned type
 			x, m := env.eval(e.Args[0]), env.eval(e.Args[1])
